@@ -247,3 +247,21 @@ func (m *Model) ValidDeleteCandidate(disk string) (bool, string) {
 	}
 	return true, ""
 }
+
+// Clone deep-copies the model.
+func (m *Model) Clone() *Model {
+	c := *m
+	c.Live = m.Live.Clone()
+	c.Snaps = map[string]*Snap{}
+	for k, v := range m.Snaps {
+		sv := *v
+		sv.Img = v.Img.Clone()
+		c.Snaps[k] = &sv
+	}
+	c.Orphans = map[string]bool{}
+	for k, v := range m.Orphans {
+		c.Orphans[k] = v
+	}
+	c.Chain = append([]string{}, m.Chain...)
+	return &c
+}
